@@ -30,6 +30,9 @@ TEMPLATES = [
     "(~kids,~links)*.members", "kids.(kids)*.members", "^(kids,members)", "(..)*.kids*.members",
     "kids*.(members,~one.members)", "~kids.~kids.members", "...kids", ".", "parent(Item)", "kids*.members.~link*",
     "(~links)*", "(.~links)*.kids", "~kids*.(..).members",
+    "...", "....", "...members", "....kids", "parent(Item).kids", "parent(Item).members", "parent(Item).parent(Item).kids",
+    "'a'~kids.members", "'b'~kids.kids*", "kids.'a'~members", "kids*.'c'~members", "^'a'~kids.members",
+    "..(members,~one.members)", "..(~one.members,members)", ".(~links,~link)", ".(~link,~links).members", "^(~links,kids).members",
 ]
 
 
@@ -747,12 +750,22 @@ def run(chk):
                               c_str(ref["name"]), c_str(c["cls"]), core.coq_bool(c["proxy"])))
                 meta.append((ci, ri, sq, names))
         if qterms:
-            exprs.append("(let m := %s in sjoin \";\" [%s])%%string" % (c_table(rows), ";\n ".join(qterms)))
+            tb = c_table(rows)
+            exprs.append("(let m := %s in sjoin \";\" [%s])%%string" % (tb, ";\n ".join(qterms)))
             groups.append(len(qterms))
+            exprs.append("show_bool (siblings_unique_tbl %s)" % tb[len("(of_table "):-1])
+            groups.append(-ci - 1)
 
     gvals, errs = core.coq_eval("C11", IMPORTS, exprs, shard=40)
     vals = []
     for n, gv in zip(groups, gvals):
+        if n < 0:       # the classifier of the known finding is the theorem's hypothesis
+            ci = -n - 1
+            py = "T" if siblings_unique(impl[ci]["rows"]) else "F"
+            if gv != py:
+                disagreements.append({"case": {"index": ci, "model": cases[ci].get("model")}, "impl": "classifier siblings_unique=" + py,
+                                      "model": "siblings_unique_tbl=" + str(gv)})
+            continue
         parts = gv.split(";") if gv is not None else []
         vals += parts if len(parts) == n else [None] * n
     if dbg:
@@ -820,7 +833,7 @@ def run(chk):
                 for ri, ref in enumerate(o["refs"]):
                     _, sq, names = model_res[ci][ri]
                     J = justified_targets(rows, sq, ref["i"], names, c["cls"])
-                    if exp[ri] == "None" and J and "Unknown object" in o.get("msg", "") and ('"%s"' % ref["name"]) in o.get("msg", ""):
+                    if J and o.get("err_ref") == ref["i"]:
                         failures.append({"case": desc, "impl": o, "what": "reference %s not resolved although %s reachable" % (ref["name"], sorted(J)),
                                          "tags": [] if siblings_unique(rows) else ["duplicate_sibling_names"]})
             elif o["r"] == "OK":
@@ -936,5 +949,22 @@ TEMPLATE_ASTS = _template_asts()
 
 
 def replay(rep):
+    """Re-run the recorded case on the implementation and judge it again."""
+    c = rep.get("case") or {}
     print(json.dumps(rep, indent=1))
+    if "start" not in c:
+        return 0
+    q = {"start": c["start"], "expr": c["expr"], "name": c["name"], "cls": c["cls"], "proxy": c["use_proxy"]}
+    if c.get("split"):
+        q["split"] = c["split"]
+    out = core.run_impl("c11", {"cases": [{"kind": "find", "model": c["model_text"], "xrefs": c.get("xrefs", []),
+                                           "post": c.get("post", []), "queries": [q]}]})[0]
+    res = out["results"][0]
+    print("implementation now answers:", res["r"])
+    if res.get("tree"):
+        sq, _ = parse_dump(res["tree"])
+        bad = judge(out["rows"], sq, c["start"], split_names(c["name"], c.get("split") or "."), c["cls"], c["use_proxy"], res["r"])
+        for what, tags in bad:
+            print("property violated:", what, tags)
+        return 1 if any(not t for _, t in bad) else 0
     return 0
